@@ -44,6 +44,14 @@ pub struct Round {
     /// for message i (index into payloads): split its delimiter after this many bytes (1..=5)
     pub delimiter_splits: Vec<(u8, u8)>,
     pub pause_ms: u8,
+    /// extra payload bytes per message (missing = 0)
+    #[serde(default)]
+    pub pads: Vec<u16>,
+    /// (message index, e, delta): pad that message so that it *ends* at byte `2^(10+e) + delta`
+    /// of everything the server has sent on the connection (receive buffers are allocated and
+    /// grown in powers of two: message ends next to such an offset are where a buffer runs full)
+    #[serde(default)]
+    pub align: Option<(u8, u8, i8)>,
 }
 
 #[derive(Debug, Clone, Serialize, Deserialize)]
@@ -65,10 +73,11 @@ const LOOKALIKES: &[&str] = &[
     "<y><![CDATA[]] ]]></y>",
 ];
 
-fn payload(r: usize, m: usize, variant: u8) -> String {
+fn payload(r: usize, m: usize, variant: u8, pad: usize) -> String {
     format!(
-        "<t xmlns=\"urn:verif\" r=\"{r}\" m=\"{m}\">{}</t>",
-        LOOKALIKES[variant as usize % LOOKALIKES.len()]
+        "<t xmlns=\"urn:verif\" r=\"{r}\" m=\"{m}\">{}<p>{}</p></t>",
+        LOOKALIKES[variant as usize % LOOKALIKES.len()],
+        "x".repeat(pad)
     )
 }
 
@@ -93,6 +102,8 @@ pub struct Plan {
     pub expected: Vec<Vec<String>>,
     pub in_delimiter_splits: usize,
     pub multi_message_units: usize,
+    /// message ends within 8 bytes of a power of two (>= 1024) of the server's byte stream
+    pub ends_at_buffer_boundary: usize,
 }
 
 pub fn build_plan(case: &Case) -> Plan {
@@ -125,24 +136,57 @@ pub fn build_plan(case: &Case) -> Plan {
     let mut expected = Vec::new();
     let mut next_id = 1usize;
     let mut multi = 0;
+    let mut at_boundary = 0;
+    // bytes the server has written so far (nudges, sent only after a stall, are not counted)
+    let mut offset = hello.len();
     for (r, round) in case.rounds.iter().enumerate() {
         total_msgs += round.payloads.len();
         steps.push(Step::AwaitWithNudge {
             n: total_msgs,
             nudge_ms: NUDGE_MS,
         });
-        let payloads: Vec<String> = round
-            .payloads
-            .iter()
-            .enumerate()
-            .map(|(m, v)| payload(r, m, *v))
+        let mut pads: Vec<usize> = (0..round.payloads.len())
+            .map(|m| round.pads.get(m).copied().unwrap_or(0) as usize)
             .collect();
-        // predict the stream to place the cuts
-        let mut stream = Vec::new();
-        for p in &payloads {
-            stream.extend_from_slice(&reply_message(&next_id.to_string(), p));
-            next_id += 1;
+        let render = |pads: &[usize]| -> (Vec<String>, Vec<u8>, Vec<usize>) {
+            let payloads: Vec<String> = round
+                .payloads
+                .iter()
+                .enumerate()
+                .map(|(m, v)| payload(r, m, *v, pads[m]))
+                .collect();
+            let mut stream = Vec::new();
+            let mut ends = Vec::new();
+            for (k, p) in payloads.iter().enumerate() {
+                stream.extend_from_slice(&reply_message(&(next_id + k).to_string(), p));
+                ends.push(stream.len());
+            }
+            (payloads, stream, ends)
+        };
+        if let Some((mi, e, delta)) = round.align {
+            let mi = mi as usize % pads.len();
+            let (_, _, ends) = render(&pads);
+            let end = offset + ends[mi];
+            let mut boundary = 1usize << (10 + (e as usize % 6));
+            while (boundary as i64 + delta as i64) < end as i64 {
+                boundary <<= 1;
+            }
+            pads[mi] += (boundary as i64 + delta as i64 - end as i64) as usize;
         }
+        // predict the stream to place the cuts
+        let (payloads, stream, ends) = render(&pads);
+        next_id += payloads.len();
+        at_boundary += ends
+            .iter()
+            .filter(|e| {
+                let abs = offset + **e;
+                abs >= 1016 && {
+                    let p = abs.next_power_of_two();
+                    p - abs <= 8 || abs - p / 2 <= 8
+                }
+            })
+            .count();
+        offset += stream.len();
         let delims = delimiter_offsets(&stream);
         let mut cuts: Vec<usize> = round
             .cuts
@@ -190,6 +234,7 @@ pub fn build_plan(case: &Case) -> Plan {
         expected,
         in_delimiter_splits: in_delim,
         multi_message_units: multi,
+        ends_at_buffer_boundary: at_boundary,
     }
 }
 
@@ -270,6 +315,7 @@ pub fn run_case(case: &Case, plan: &Plan) -> Result<(ClientObs, Marks), String> 
             expected,
             in_delimiter_splits: 0,
             multi_message_units: 0,
+            ends_at_buffer_boundary: 0,
         };
         run_case_inner(&c, &plan)
     }) {
@@ -514,12 +560,19 @@ fn round_strategy() -> impl Strategy<Value = Round> {
         prop::collection::vec(any::<u16>(), 0..6),
         prop::collection::vec((0u8..5, 1u8..6), 0..4),
         0u8..6,
+        prop::collection::vec(
+            prop_oneof![4 => Just(0u16), 4 => 0u16..300, 1 => 300u16..3000, 1 => 3000u16..20000],
+            0..5,
+        ),
+        prop::option::weighted(0.4, (0u8..5, 0u8..5, -8i8..=8)),
     )
-        .prop_map(|(payloads, cuts, delimiter_splits, pause_ms)| Round {
+        .prop_map(|(payloads, cuts, delimiter_splits, pause_ms, pads, align)| Round {
             payloads,
             cuts,
             delimiter_splits,
             pause_ms,
+            pads,
+            align,
         })
 }
 
@@ -577,6 +630,8 @@ impl Prop for C06 {
                         cuts: vec![],
                         delimiter_splits: vec![],
                         pause_ms: 3,
+                        pads: vec![],
+                        align: None,
                     }],
                 });
                 out.push(Case {
@@ -589,12 +644,16 @@ impl Prop for C06 {
                             cuts: vec![],
                             delimiter_splits: vec![(0, off)],
                             pause_ms: 3,
+                            pads: vec![],
+                            align: None,
                         },
                         Round {
                             payloads: vec![0],
                             cuts: vec![],
                             delimiter_splits: vec![(0, off)],
                             pause_ms: 3,
+                            pads: vec![],
+                            align: None,
                         },
                     ],
                 });
@@ -608,6 +667,8 @@ impl Prop for C06 {
                     cuts: vec![],
                     delimiter_splits: vec![],
                     pause_ms: 0,
+                    pads: vec![],
+                    align: None,
                 }],
             });
         }
@@ -626,7 +687,12 @@ impl Prop for C06 {
         if plan.multi_message_units > 0 {
             obs.class("several-messages-in-one-unit");
         }
-        obs.nontrivial = plan.in_delimiter_splits > 0 || plan.multi_message_units > 0;
+        if plan.ends_at_buffer_boundary > 0 {
+            obs.class("message-ends-next-to-a-power-of-two-offset");
+        }
+        obs.nontrivial = plan.in_delimiter_splits > 0
+            || plan.multi_message_units > 0
+            || plan.ends_at_buffer_boundary > 0;
         match run_case(case, &plan) {
             Err(e) => obs.fail("harness-sanity:transport-setup", e),
             Ok((client, marks)) => {
